@@ -52,6 +52,9 @@ Judge(ev) ==
   ELSE IF ev.head # SubSeq(st, 1, Min2(64, ns)) \/ ev.tail # SubSeq(st, (IF ns > 16 THEN ns - 15 ELSE 1), ns) \/ ev.sum # CheckSum(st)
        THEN "C05: stored bytes differ from the canonical encoding"
   ELSE IF stot <= ev.cap /\ (ev.wv = 1) # wf THEN "C05: binson_writer_verify disagrees with Layer A on the output"
+  \* the recorder walked the writer's (unlimited-capacity) output in lock-step with the call list: next / go_into / leave
+  \* and the typed getters must give back every name and value written (pb = -1: not a well-formed list)
+  ELSE IF wf /\ ev.pb = 0 THEN "C05: decoding the output by traversal does not give back the values written"
   ELSE ""
 
 \* every line is an independent execution: validation continues after a disagreement
